@@ -23,6 +23,8 @@ inline Alphabet SigmaAH() { return {{0, 3}, {"a", "h"}}; }
 inline Alphabet SigmaOv() { return {{0, 0, 2}, {"a", "b", "a"}}; }   // a:0 b:0 a:2
 inline Alphabet SigmaOv1() { return {{0, 1, 2}, {"a", "a", "a"}}; }   // a:0 a:1 a:2
 inline Alphabet SigmaA() { return {{0}, {"a"}}; }
+inline Alphabet SigmaABF() { return {{0, 0, 1}, {"a", "b", "f"}}; }   // a:0 b:0 f:1 — word-like automata: long unary chains and loops, many rules per state
+inline Alphabet SigmaABFG1() { return {{0, 0, 1, 1}, {"a", "b", "f", "g"}}; }   // a:0 b:0 f:1 g:1 (two unary symbols)
 
 // TA(n, Sigma, <=k): all automata over states 0..n-1 with at most k rules from the rule universe
 // and any final set.  Ordered by number of rules, then combination (lexicographic), then final mask.
